@@ -2,7 +2,7 @@
 import kernpy as kp
 from hypothesis import strategies as st
 
-from .. import docgen as D, kdoc as K, measures as MS, spine as S
+from .. import docgen as D, grammar as G, kdoc as K, measures as MS, spine as S
 from ..common import Bad, Result
 
 ID = 'C07'
@@ -15,7 +15,7 @@ RULE = ('Hypothesis **kern scores organised in measures (kv/docgen.py measure_do
         'excerpt must be exactly the lines of the full export that belong to measures a..b plus the closing barline, '
         'unmodified and in order; lines before them are interpretations only; list(doc) == [1..M]; the single-measure '
         'exports partition the data lines of the full export; interleaved and nested iterations are independent; the '
-        'illegal shapes raise ValueError.  A second profile keeps splits open across barlines.  An evaluation is '
+        'illegal shapes raise ValueError (also for scores without any measure, M = 0: header, interpretations, terminator).  A second profile keeps splits open across barlines.  An evaluation is '
         'one (document, a, b); non-trivial when M >= 3 and 1 < a and b < M, or the score has a pick-up, or no final '
         'barline.')
 ASSUMPTIONS = ['measure numbering: barline rows open measures; a pick-up before the first barline is measure 1.  kernpy also '
@@ -130,12 +130,66 @@ def check(case):
     return r
 
 
+@st.composite
+def measureless_cases(draw):
+    """well-formed scores WITHOUT any measure: header, 0-3 signature / tandem rows (every cell an interpretation, no null
+    token, so that neither numbering sees a measure), optional field comments, terminator"""
+    nk = draw(st.integers(1, 3))
+    types = ['**kern'] * nk
+    rows = [D._row([G.header_cell(t) for t in types])]
+    for kind in draw(st.lists(st.sampled_from(['clef', 'key', 'time', 'meter', 'tandem', 'comment']), max_size=3)):
+        if kind == 'comment':
+            rows.append(D._row([draw(G.field_comments()) for _ in types]))
+        elif kind == 'tandem':
+            t = draw(st.sampled_from(['*MM120', '*staff1', '*Ipiano']))
+            rows.append(D._row([{'k': 'interp', 't': t, 'e': t, 'cat': None} for _ in types]))
+        else:
+            strat = {'clef': G.clefs(supported_only=True), 'key': G.keysigs(), 'time': G.timesigs(), 'meter': G.meters()}[kind]
+            rows.append(D._row([draw(strat) for _ in types]))
+    rows.append(D._row([G.op_cell('*-') for _ in types]))
+    return {'doc': {'types': types, 'rows': rows, 'profile': 'measureless'}, 'file': draw(st.booleans()),
+            'ends': draw(st.lists(st.integers(1, 9), min_size=2, max_size=4))}
+
+
+def check_measureless(case):
+    """M = 0: every end >= 1 lies beyond M, a negative start is negative all the same: ValueError, never another exception
+    and never a clamped export; the un-ranged export is still the whole text"""
+    doc = case['doc']
+    text = S.render(doc)
+    kdoc = K.loads_clean(text, via_file=bool(case.get('file')))
+    if MS.boundaries(doc, True):
+        raise Bad('generator', 'measure-less document has a measure in the model')
+    if len(kdoc.measure_start_tree_stages) != 0:
+        raise Bad('measure-count', f'a score without barline and without data has {len(kdoc.measure_start_tree_stages)} measure starts\n{text}')
+    full = K.dumps(kdoc)
+    evals = 1
+    shapes = [({'from_measure': -1}, 'negative start'), ({'from_measure': -2, 'to_measure': 0}, 'negative start')]
+    for e in case['ends']:
+        shapes += [({'to_measure': e}, 'end beyond M'), ({'from_measure': 1, 'to_measure': e}, 'end beyond M'),
+                   ({'from_measure': 0, 'to_measure': e}, 'end beyond M'), ({'from_measure': e + 1, 'to_measure': e}, 'end beyond M / before start')]
+    for bad_kw, why in shapes:
+        evals += 1
+        try:
+            r = kp.dumps(kdoc, **bad_kw)
+        except ValueError:
+            continue
+        except Exception as e:  # noqa
+            raise Bad('wrong-exception', f'{bad_kw} ({why}, M=0) raised {type(e).__name__}: {e}, expected ValueError\n{text}')
+        raise Bad('not-rejected', f'{bad_kw} ({why}, M=0) was accepted and returned {r[:80]!r}')
+    if K.dumps(kdoc) != full:
+        raise Bad('not-repeatable', 'the un-ranged export changed after rejected ranges')
+    return Result(nontrivial=len(doc['rows']) > 2, evals=evals, classes=['measureless', f'{len(doc["types"])} spines'], sample=text)
+
+
 def run(ctx):
     n = 150 if ctx.quick else 1200
+    ctx.run_hypothesis(measureless_cases(), check_measureless, max_examples=20 if ctx.quick else 200, salt=2, label='measureless')
     ctx.run_hypothesis(cases(), check, max_examples=n, label='measures')
     # splits that stay open across barlines (barline rows wider than the header row)
     ctx.run_hypothesis(cases(across=True), check, max_examples=max(50, n // 3), salt=1, label='split-across-barlines')
 
 
 def replay(case):
+    if case['doc'].get('profile') == 'measureless':
+        return check_measureless(case)
     return check(case)
